@@ -152,7 +152,7 @@ def main(argv=None):
         if k not in cov:
             print("harness error: evidence lacks", k)
             return 2
-    common.jdump(ev, os.path.join(common.VERIF, "evidence", pid + ".json"))
+    common.jdump(ev, os.path.join(os.environ.get("VERIF_EVIDENCE_DIR") or os.path.join(common.VERIF, "evidence"), pid + ".json"))
     print("%s %s seed=%d: executions=%s states=%s transitions=%s distinct_outcomes=%s wall=%.1fs -> %s" % (
         pid, args.tier, seed, cov.get("executions"), cov.get("states"), cov.get("transitions"),
         cov.get("distinct_outcomes"), time.time() - t0,
